@@ -97,6 +97,7 @@ class StdCtx(Ctx):
         while g[0] == 'pref': g = g[1]
         while sp[0] == 'pref': sp = sp[1]
         if g[0] in ('pwild', 'pbind'): return True
+        if g[0] == 'prest': return sp[0] == 'prest'
         if g[0] != sp[0]: return False
         if g[0] == 'pslice': return len(g[1]) == len(sp[1]) and all(self.subsumes(a, b) for a, b in zip(g[1], sp[1]))
         if g[0] == 'ptuplestruct': return g[1] == sp[1] and len(g[2]) == len(sp[2]) and all(self.subsumes(a, b) for a, b in zip(g[2], sp[2]))
@@ -162,6 +163,7 @@ class StdCtx(Ctx):
             if t == 'f64' and e[2] == 'usize': return f'NumX.toUsize {self.paren(s)}', 'usize'
             if t == 'f64' and e[2] == 'u32': return f'NumX.toU32 {self.paren(s)}', 'u32'
             if t == 'f64' and e[2] == 'i64': return f'NumX.toI64 {self.paren(s)}', 'i64'
+            if t == 'f64' and e[2] == 'i32': return f'NumX.toI32 {self.paren(s)}', 'i32'
             if t == 'i64' and e[2] == 'f64': return f'NumX.ofInt {self.paren(s)}', 'f64'
             if t == 'weekday' and e[2] == 'u8': return s, 'u32'                                       # `Weekday as u8`: Monday = 0
             if t == 'char' and e[2] == 'u8': return f'({self.paren(s)}.toNat % 256)', 'u8'                     # `c as u8` truncates to the low byte
@@ -212,6 +214,11 @@ class StdCtx(Ctx):
         if k == 'call' and e[1] == ('path', ['f64', 'from']) and len(e[2]) == 1 and e[2][0][0] == 'cast' and e[2][0][2] == 'u8' and e[2][0][1][0] == 'mcall' and e[2][0][1][2] == 'weekday':
             x, xt = self.tx(e[2][0], env)
             if xt == 'u32': return f'NumX.ofNat {self.paren(x)}', 'f64'
+        if k == 'call' and e[1] == ('path', ['NaiveDate', 'from_ymd_opt']) and len(e[2]) == 3:
+            ts = [self.tx(a, env) for a in e[2]]
+            if [t for _, t in ts] == ['i32', 'u32', 'u32']:
+                y, m, d = [self.paren(x) for x, _ in ts]
+                return f'(if validDate {y} {m} {d} then some (daysFromCivil {y} {m} {d}) else none)', ('opt', 'date')
         if k == 'call' and e[1] == ('path', ['NaiveDateTime', 'try_from']) and len(e[2]) == 1:
             v, vt = self.tx(e[2][0], env)
             if vt == 'value': return f'try_from {self.paren(v)}', ('res', 'dt')
@@ -321,6 +328,26 @@ class StdCtx(Ctx):
                 return {'year': (f'{self.paren(d)}.year', 'i32'), 'month': (f'{self.paren(d)}.month', 'u32'), 'day': (f'{self.paren(d)}.day', 'u32'), 'hour': (f'{self.paren(d)}.hour', 'u32'),
                         'minute': (f'{self.paren(d)}.minute', 'u32'), 'second': (f'{self.paren(d)}.second', 'u32'), 'weekday': (f'weekday {self.paren(d)}.days', 'weekday'),
                         'nanosecond': (f'({self.paren(d)}.milli * 1000000)', 'u32')}[name]          # the model keeps whole milliseconds (the conversion rounds to them)
+        # `NaiveDate::from_ymd_opt(y, m, d)`: the day number of a valid proleptic-Gregorian date within chrono's year range, else None (a NaiveDate is its day number)
+        # `.map(|date| date.and_time(NaiveTime::default()))`: midnight of that day; `.map(Value::from)`: the conversion above
+        if name == 'and_time' and args == [('call', ('path', ['NaiveTime', 'default']), [])]:
+            d, dt = self.tx(recv, env)
+            if dt == 'date': return f'(⟨{d}, 0⟩ : DT)', 'dt'
+        if name == 'map' and args == [('path', ['Value', 'from'])]:
+            o, ot = self.tx(recv, env)
+            if ot == ('opt', 'dt'): return f'Option.map (fun t => (from_datetime t : Value N)) {self.paren(o)}', ('opt', 'value')
+        # `NaiveDate::default().and_hms_milli_opt(h, m, s, ms)`: 1970-01-01 at that time of day (a millisecond part of 1000–1999 only with second 59: leap second), else None
+        if name == 'and_hms_milli_opt' and len(args) == 4 and recv == ('call', ('path', ['NaiveDate', 'default']), []):
+            ts = [self.tx(a, env) for a in args]
+            if all(t == 'u32' for _, t in ts):
+                h, m, sx, ms = [self.paren(x) for x, _ in ts]
+                return f'(if validTime {h} {m} {sx} {ms} then some (⟨0, ({h} * 3600 + {m} * 60 + {sx}) * 1000 + {ms}⟩ : DT) else none)', ('opt', 'dt')
+        # `[a, b, c].iter().all(|v| p)` on an array literal of numbers
+        if name == 'all' and len(args) == 1 and args[0][0] == 'closure' and recv[0] == 'mcall' and recv[2] == 'iter' and recv[1][0] == 'array':
+            items = [self.tx(a, env) for a in recv[1][1]]
+            if all(t == 'f64' for _, t in items):
+                env1 = dict(env); pp = self.pat(args[0][1][0], 'f64', env1); b, bt = self.tx(args[0][2], env1)
+                return f'List.all [{", ".join(x for x, _ in items)}] (fun {pp} => {b})', 'bool'
         # `DateTime::from_timestamp_millis(ms).map(|dt| dt.naive_utc())`: the UTC date-time of that millisecond, None outside chrono's year range
         if name == 'map' and args == [('closure', [('pbind', 'dt')], ('mcall', ('path', ['dt']), 'naive_utc', None, []))] and recv[0] == 'call' \
            and recv[1] == ('path', ['DateTime', 'from_timestamp_millis']) and len(recv[2]) == 1:
@@ -328,6 +355,9 @@ class StdCtx(Ctx):
             if mt == 'i64': return f'ofMillis {self.paren(m)}', ('opt', 'dt')
         if name == 'map' and len(args) == 1 and args[0][0] == 'closure' and len(args[0][1]) == 1:
             r0, t0 = self.tx(recv, env)
+            if isinstance(t0, tuple) and t0[0] == 'opt':
+                env1 = dict(env); pp = self.pat(args[0][1][0], t0[1], env1); b, bt = self.tx(args[0][2], env1)
+                return f'Option.map (fun {pp} => {b}) {self.paren(r0)}', ('opt', bt)
             if isinstance(t0, tuple) and t0[0] == 'res':
                 env1 = dict(env); pp = self.pat(args[0][1][0], t0[1], env1); b, bt = self.tx(args[0][2], env1)
                 return f'Except.map (fun {pp} => {b}) {self.paren(r0)}', ('res', bt)
@@ -527,20 +557,21 @@ def gen_time(srcdir):
     tm = strip_tests(open(os.path.join(srcdir, 'stdlib', 'time.rs')).read())
     if not re.search(r'const\s+MILLISECONDS_PER_DAY\s*:\s*f64\s*=\s*24\.\s*\*\s*60\.\s*\*\s*60\.\s*\*\s*1000\.\s*;', tm): raise Unrecognised('MILLISECONDS_PER_DAY')
     RUST_TYPE.update({'&[Value]': 'values', '&Value': 'value', 'NaiveDateTime': 'dt', 'Result <Self , Self::Error>': ('res', 'dt'), 'Self': 'value'})
-    LEAN_TYPE.update({'dt': 'DT', 'nerr': 'NativeError', 'i64': 'Int', 'i32': 'Int', 'u32': 'Nat'})
-    c = StdCtx(RERR, 'NativeError', selfty=None, module_fns={})
+    LEAN_TYPE.update({'dt': 'DT', 'nerr': 'NativeError', 'i64': 'Int', 'i32': 'Int', 'u32': 'Nat', 'date': 'Int'})
+    RUST_TYPE.update({'f64': 'f64', 'Result <f64 , NativeError>': ('res', 'f64'), "&'a [Value]": 'values', "&'a str": 'str', "Result <&'a str , NativeError>": ('res', 'str')})
+    c = StdCtx(RERR, 'NativeError', selfty=None, module_fns={'default_number': ('SrcStdlib.default_number', ['values', 'usize', 'f64'], ('res', 'f64'))})
     out = []
     d, aux = c.pure_fn(find_fn(tm, 'try_from', after='impl TryFrom < & Value > for NaiveDateTime'), 'try_from')
     out += aux + ['/-- `impl TryFrom<&Value> for NaiveDateTime` (src/stdlib/time.rs) -/\n' + d + '\n']
     f = find_fn(tm, 'from', after='impl From < NaiveDateTime > for Value'); f['ret'] = 'Self'
     d, aux = c.pure_fn(f, 'from_datetime')
     out += aux + ['/-- `impl From<NaiveDateTime> for Value` (src/stdlib/time.rs) -/\n' + d + '\n']
-    for rust in ('year', 'month', 'day', 'hour', 'minute', 'second', 'millisecond', 'day_of_week', 'is_leap_year'):
+    for rust in ('year', 'month', 'day', 'hour', 'minute', 'second', 'millisecond', 'day_of_week', 'is_leap_year', 'encode_date', 'encode_time'):
         d, aux = c.pure_fn(find_fn(tm, rust), rust)
         out += aux + [f'/-- `{rust}` (src/stdlib/time.rs) -/\n' + d + '\n']
     head = ('/-\n  SlacModel.Generated.SrcTime — GENERATED on every check run by /verif/tools/rs2lean_stdlib.py from the CURRENT text of /repo/src/stdlib/time.rs\n'
             '  (the number <-> NaiveDateTime conversions and the component builtins).  Do not edit.  SlacProps/C16Source.lean proves SlacModel/TimeCore.lean equal to these functions.\n-/\n'
-            'import SlacModel.TimeCore\nset_option autoImplicit false\nset_option linter.unusedVariables false\nnamespace Slac.Generated.SrcTime\nopen Slac Slac.Time\nvariable {N : Type} [NumX N]\n\n')
+            'import SlacModel.TimeCore\nimport SlacModel.Generated.SrcStdlib\nset_option autoImplicit false\nset_option linter.unusedVariables false\nnamespace Slac.Generated.SrcTime\nopen Slac Slac.Time\nvariable {N : Type} [NumX N]\n\n')
     return head + '\n'.join(out) + '\nend Slac.Generated.SrcTime\n'
 
 def gen_regex(srcdir):
